@@ -348,7 +348,7 @@ fn opts_of(c: &Call) -> Vec<Opt<'_>> {
     // tags keep their relative order; the other options are inserted at positions chosen by `order`
     let mut v: Vec<Opt> = c.tags.iter().map(|t| Opt::Tag(t.k.as_deref(), &t.v)).collect();
     let mut o = c.order;
-    let mut ins = |v: &mut Vec<Opt<'_>>, x: Opt<'static>, o: &mut u64| {
+    let ins = |v: &mut Vec<Opt<'_>>, x: Opt<'static>, o: &mut u64| {
         let pos = (*o % (v.len() as u64 + 1)) as usize;
         *o /= 7;
         v.insert(pos, x);
